@@ -23,6 +23,7 @@ type oracleInfo struct {
 }
 
 var degradedMode bool
+var buildsFlag = "race,plain"
 
 func oracleRun(bin string, wall time.Duration, corpusPath string, order string, ids []int) proto.OracleOut {
 	args := []string{"oracle", "-corpus", corpusPath, "-order", order, "-seed", strconv.FormatUint(seed, 10)}
@@ -367,7 +368,9 @@ func runSims(b builds, cfg tierCfg, free bool) *simAgg {
 	}
 	var jobs []job
 	for p := 0; p < cfg.procs; p++ {
-		jobs = append(jobs, job{"race", p}, job{"plain", p})
+		for _, bn := range strings.Split(buildsFlag, ",") {
+			jobs = append(jobs, job{bn, p})
+		}
 	}
 	var mu sync.Mutex
 	stop := false
